@@ -630,7 +630,7 @@ func finishLength(p *Program, r *Report) {
 			name := fn.Name + ": the patched length counts the bytes that follow the header when it is written"
 			id, isId := ast.Unparen(c.Args[0]).(*ast.Ident)
 			if !isId {
-				got := strings.ReplaceAll(exprStr(c.Args[0]), " ", "")
+				got := p.canonText(fn, c.Args[0])
 				r.Check(got == "len(f.buf)-f.headSize", c, name, "len(f.buf) - f.headSize evaluated at the call", "the patched length is "+got+", not the number of bytes after the header")
 				continue
 			}
@@ -652,7 +652,7 @@ func finishLength(p *Program, r *Report) {
 				r.Unresolved("%s: the length handed to setLength is not a local with a single definition", fn.Name)
 				continue
 			}
-			got := strings.ReplaceAll(exprStr(def.Rhs[0]), " ", "")
+			got := p.canonText(fn, def.Rhs[0])
 			if got != "len(f.buf)-f.headSize" {
 				r.Bad(c, name, "the patched length is "+got+", not the number of bytes after the header")
 				continue
